@@ -31,6 +31,51 @@ def lift(model, req):
     if ".parser." in str(req.get("target", "")).replace(":", "."):
         from .parser_replay import search
         return search()
+    return ignored_insertion_search(model)
+
+
+IGNORED = ["\ufeff", " ", "\t", ",", "\n", "\r", "\r\n", "# c\n", "# c\r", "#\r\n"]
+
+
+def ignored_insertion_search(model):
+    """The statement itself on real sources: inserting ignored material at a token boundary of a
+    source that lexes leaves the token stream (kinds and values) unchanged; a source that lexes
+    keeps lexing."""
+    from graphql.language import Lexer, Source, TokenKind
+    from .C10 import find_bodies
+    from .parser_replay import QUERY, SDL, EXTRA
+
+    def toks(text):
+        lx = Lexer(Source(text))
+        out = []
+        while True:
+            t = lx.advance()
+            out.append((t.kind, t.value, t.start, t.end))
+            if t.kind is TokenKind.EOF:
+                return out
+    texts = [b for b in find_bodies(model, []) if isinstance(b, str)][:3]
+    texts += ["{ a b }", "{ a(x: 1.5e3, y: \"s\", z: -0) ...F @d }", '"""b""" type T { f: [Int!]! }']
+    texts += [QUERY, SDL] + EXTRA
+    for text in texts:
+        try:
+            base = toks(text)
+        except Exception:  # noqa: BLE001
+            continue
+        cuts = sorted({0} | {t[3] for t in base} | {t[2] for t in base})
+        if len(cuts) > 60:
+            cuts = cuts[:: max(1, len(cuts) // 60)]
+        want = [(k, v) for k, v, _, _ in base]
+        for c in cuts:
+            for ins in IGNORED:
+                new = text[:c] + ins + text[c:]
+                try:
+                    got = [(k, v) for k, v, _, _ in toks(new)]
+                except Exception as e:  # noqa: BLE001
+                    return {"confirmed": True, "input": new[:300], "inserted": ins, "at": c,
+                            "observed": f"no longer lexes: {type(e).__name__}: {str(e)[:100]}"}
+                if got != want:
+                    return {"confirmed": True, "input": new[:300], "inserted": ins, "at": c,
+                            "observed": "token stream changed"}
     return {"confirmed": False}
 
 
